@@ -371,3 +371,288 @@ Proof.
 Qed.
 
 End Facts.
+
+(** * The egress part *)
+Section Egress.
+Variable mac : N -> N -> N -> N -> N -> list N.
+Notation macq := (total mac).
+Variable c : cfg.
+Variable now : N.
+Variable ing : ingress.
+
+Lemma do_xover_ok s s' :
+  do_xover s = Ok s' ->
+  exists h' i',
+    nthN (p_hops (s_p s)) (p_curr_hf (s_p s) + 1) = Some h' /\
+    nthN (p_infos (s_p s)) (inf_index_for_hf (s_p s) (p_curr_hf (s_p s) + 1)) = Some i' /\
+    s' = mkSt (inc_path (s_p s)) h' i' (s_peer s) true (s_eg s).
+Proof.
+  unfold do_xover. cbn [inc_path with_meta p_hops p_infos p_curr_hf p_curr_inf].
+  destruct (nthN (p_hops (s_p s)) (p_curr_hf (s_p s) + 1)) as [h'|]; [|discriminate].
+  destruct (nthN (p_infos (s_p s)) _) as [i'|]; [|discriminate].
+  intros [= <-]. exists h', i'. auto.
+Qed.
+
+Lemma do_xover_nf s r : do_xover s = Stop r -> not_forward r.
+Proof.
+  unfold do_xover.
+  destruct (nthN (p_hops _) _); [destruct (nthN (p_infos _) _)|]; intros H; inversion H; exact I.
+Qed.
+
+Definition xover_cond (s : st) : bool := is_xover (s_p s) && negb (s_peer s).
+
+Lemma xover_part_ok s s' :
+  xover_part macq now s = Ok s' ->
+  if xover_cond s then
+    exists h' i',
+      nthN (p_hops (s_p s)) (p_curr_hf (s_p s) + 1) = Some h' /\
+      nthN (p_infos (s_p s)) (inf_index_for_hf (s_p s) (p_curr_hf (s_p s) + 1)) = Some i' /\
+      s' = mkSt (inc_path (s_p s)) h' i' (s_peer s) true (s_eg s) /\
+      expired now i' h' = false /\ mac_valid mac i' h'
+  else s' = s.
+Proof.
+  unfold xover_part, xover_cond. destruct (is_xover (s_p s) && negb (s_peer s)).
+  - intros H. apply bind_ok in H as (s2 & H & H3). apply bind_ok in H as (s1 & H1 & H2).
+    apply do_xover_ok in H1 as (h' & i' & Eh & Ei & ->).
+    apply validate_hop_expiry_ok in H2 as [-> H2].
+    apply verify_mac_ok in H3 as [-> (m & M1 & M2)].
+    exists h', i'. repeat split; try assumption.
+    cbn in *. unfold mac_valid. unfold mac_of, total in M1. inversion M1. congruence.
+  - intros [= <-]. reflexivity.
+Qed.
+
+Lemma xover_part_nf s r : xover_part macq now s = Stop r -> not_forward r.
+Proof.
+  unfold xover_part. destruct (_ && _); [|discriminate]. intros H.
+  apply bind_stop in H as [H | (s2 & H & H')]; [| eapply verify_mac_nf; eassumption].
+  apply bind_stop in H as [H | (s1 & H & H')]; [| eapply validate_hop_expiry_nf; eassumption].
+  eapply do_xover_nf; eassumption.
+Qed.
+
+Lemma validate_egress_id_ok s s' :
+  validate_egress_id c ing s = Ok s' ->
+  s' = s /\
+  validate_egress (from0 ing) (lt_of c (ing_ifid ing)) (get_if c (s_eg s)) (s_xover s) = EgOk.
+Proof.
+  unfold validate_egress_id, slow.
+  destruct (validate_egress _ _ _ _); try discriminate. intros [= <-]. auto.
+Qed.
+Lemma validate_egress_id_nf s r : validate_egress_id c ing s = Stop r -> not_forward r.
+Proof.
+  unfold validate_egress_id, slow.
+  destruct (validate_egress _ _ _ _); intros H; inversion H; exact I.
+Qed.
+
+Definition egress_alert (s : st) : bool :=
+  if i_consdir (s_inf s) then h_ealert (s_hop s) else h_ialert (s_hop s).
+
+Lemma egress_alert_ok s s' :
+  handle_egress_router_alert c s = Ok s' ->
+  s' = s /\ (egress_alert s = false \/ if_scope (egress_if c s) <> External).
+Proof.
+  unfold handle_egress_router_alert, egress_alert.
+  destruct (negb _) eqn:A.
+  - intros [= <-]. split; [reflexivity|]. left. now apply negb_true_iff in A.
+  - destruct (negb (scope_eqb _ _)) eqn:B; [|discriminate].
+    intros [= <-]. split; [reflexivity|]. right. intros E.
+    apply negb_true_iff in B. rewrite E in B. discriminate.
+Qed.
+Lemma egress_alert_nf s r : handle_egress_router_alert c s = Stop r -> not_forward r.
+Proof.
+  unfold handle_egress_router_alert.
+  destruct (negb _); [discriminate|]. destruct (negb _); [discriminate|].
+  intros H; inversion H; exact I.
+Qed.
+
+Lemma validate_egress_up_ok s s' :
+  validate_egress_up c s = Ok s' -> s' = s /\ if_up (egress_if c s) = true.
+Proof.
+  unfold validate_egress_up, slow. destruct (if_up _); [|destruct (scope_eqb _ _); discriminate].
+  intros [= <-]. auto.
+Qed.
+Lemma validate_egress_up_nf s r : validate_egress_up c s = Stop r -> not_forward r.
+Proof.
+  unfold validate_egress_up, slow. destruct (if_up _); [discriminate|].
+  destruct (scope_eqb _ _); intros H; inversion H; exact I.
+Qed.
+
+Lemma egress_part_nf s r : egress_part macq c now ing s = Stop r -> not_forward r.
+Proof.
+  unfold egress_part. intros H.
+  apply bind_stop in H as [H | (s0 & H & H')]; [| eapply validate_egress_up_nf; eassumption].
+  apply bind_stop in H as [H | (s0 & H & H')]; [| eapply egress_alert_nf; eassumption].
+  apply bind_stop in H as [H | (s0 & H & H')]; [| eapply validate_egress_id_nf; eassumption].
+  apply bind_stop in H as [H | (s0 & H & H')]; [| discriminate].
+  eapply xover_part_nf; eassumption.
+Qed.
+
+(** state after the (possible) cross-over, before the egress checks *)
+Record egress_facts (s s' : st) : Prop := {
+  ef_x : if xover_cond s then
+           exists h' i',
+             nthN (p_hops (s_p s)) (p_curr_hf (s_p s) + 1) = Some h' /\
+             nthN (p_infos (s_p s)) (inf_index_for_hf (s_p s) (p_curr_hf (s_p s) + 1)) = Some i' /\
+             s_p s' = inc_path (s_p s) /\ s_hop s' = h' /\ s_inf s' = i' /\ s_xover s' = true /\
+             expired now i' h' = false /\ mac_valid mac i' h'
+         else s_p s' = s_p s /\ s_hop s' = s_hop s /\ s_inf s' = s_inf s /\ s_xover s' = s_xover s;
+  ef_peer : s_peer s' = s_peer s;
+  ef_eg : s_eg s' = egress_interface s';
+  ef_adm : validate_egress (from0 ing) (lt_of c (ing_ifid ing)) (get_if c (s_eg s')) (s_xover s') = EgOk;
+  ef_alert : egress_alert s' = false \/ if_scope (egress_if c s') <> External;
+  ef_up : if_up (egress_if c s') = true
+}.
+
+Lemma egress_part_ok s s' : egress_part macq c now ing s = Ok s' -> egress_facts s s'.
+Proof.
+  unfold egress_part. intros H.
+  apply bind_ok in H as (s4 & H & H5). apply bind_ok in H as (s3 & H & H4).
+  apply bind_ok in H as (s2 & H & H3). apply bind_ok in H as (s1 & H1 & H2).
+  apply xover_part_ok in H1.
+  unfold set_egress in H2. injection H2 as <-.
+  apply validate_egress_id_ok in H3 as [-> H3].
+  apply egress_alert_ok in H4 as [-> H4].
+  apply validate_egress_up_ok in H5 as [-> H5].
+  constructor; try assumption; try reflexivity.
+  - destruct (xover_cond s).
+    + destruct H1 as (h' & i' & A & B & -> & D & E). exists h', i'. cbn. auto 10.
+    + subst s1. cbn. auto.
+  - destruct (xover_cond s).
+    + destruct H1 as (h' & i' & A & B & -> & D & E). reflexivity.
+    + subst s1. reflexivity.
+Qed.
+
+(** * Inversion of a Forward result *)
+Definition forward_out (s' : st) : pkt :=
+  let s1 := if i_consdir (s_inf s') && negb (s_peer s')
+            then store_inf s' (upd_segid (s_inf s') (s_hop s')) else s' in
+  inc_path (s_p s1).
+
+Lemma process_forward_inv p e out d :
+  process_scion macq c now ing p = Forward e out d ->
+  exists s i h, ingress_facts mac c now ing p s i h /\
+    ((p_dst_ia p = c_ia c /\ e = 0 /\ out = s_p s /\ d <> None) \/
+     (p_dst_ia p <> c_ia c /\ d = None /\
+      exists s', egress_facts s s' /\ e = s_eg s' /\
+        if scope_eqb (if_scope (egress_if c s')) External
+        then out = forward_out s' /\ p_curr_hf (s_p s') + 1 < num_hops (s_p s')
+        else out = s_p s')).
+Proof.
+  unfold process_scion.
+  destruct (ingress_part macq c now ing p) as [s|r] eqn:EI.
+  2:{ intros ->. apply ingress_part_nf in EI. destruct EI. }
+  destruct (ingress_part_ok _ _ _ _ _ _ EI) as (i & h & F).
+  destruct (p_dst_ia p =? c_ia c) eqn:ED.
+  - apply N.eqb_eq in ED. intros HR. exists s, i, h. split; [exact F|]. left.
+    unfold resolve_inbound in HR. rewrite (if_eg _ _ _ _ _ _ _ _ F) in HR.
+    destruct (parse_host _ _); try discriminate.
+    + destruct (p_l4_port (s_p s)); [|discriminate].
+      destruct (_ || _); [discriminate|]. injection HR as <- <- <-.
+      repeat split; try assumption; discriminate.
+    + destruct (lookup_svc _ _); [|discriminate]. injection HR as <- <- <-.
+      repeat split; try assumption; discriminate.
+  - apply N.eqb_neq in ED.
+    destruct (egress_part macq c now ing s) as [s'|r] eqn:EE.
+    2:{ intros ->. apply egress_part_nf in EE. destruct EE. }
+    intros HR. exists s, i, h. split; [exact F|]. right. split; [exact ED|].
+    pose proof (egress_part_ok _ _ EE) as G.
+    unfold finish in HR. destruct (scope_eqb (if_scope (egress_if c s')) External) eqn:ES.
+    + unfold process_egress in HR.
+      destruct (i_consdir (s_inf s') && negb (s_peer s')) eqn:EU.
+      * cbn [store_inf s_p s_eg with_infos p_curr_hf num_hops p_seg0 p_seg1 p_seg2] in HR.
+        destruct (_ <=? _) eqn:EL; [discriminate|]. injection HR as <- <- <-.
+        split; [reflexivity|]. exists s'. split; [exact G|]. split; [reflexivity|].
+        rewrite ES. unfold forward_out. rewrite EU. split; [reflexivity|].
+        apply N.leb_gt in EL. exact EL.
+      * destruct (_ <=? _) eqn:EL; [discriminate|]. injection HR as <- <- <-.
+        split; [reflexivity|]. exists s'. split; [exact G|]. split; [reflexivity|].
+        rewrite ES. unfold forward_out. rewrite EU. split; [reflexivity|].
+        apply N.leb_gt in EL. exact EL.
+    + injection HR as <- <- <-. split; [reflexivity|]. exists s'. split; [exact G|].
+      split; [reflexivity|]. rewrite ES. reflexivity.
+Qed.
+
+End Egress.
+
+(** * C06 *)
+Lemma validate_egress_spec f0 ilt eg xover :
+  (f0 = true -> ilt = Unset) ->
+  (validate_egress f0 ilt eg xover = EgOk <-> admissible f0 ilt eg xover = true).
+Proof.
+  intros H. destruct eg as [[id sc lt nbr up lk]|]; [|cbn; split; discriminate].
+  unfold validate_egress, admissible. cbn [if_scope if_lt].
+  destruct f0.
+  - rewrite (H eq_refl). destruct sc, lt, xover; cbn; split; intros; try reflexivity; discriminate.
+  - destruct sc, ilt, lt, xover; cbn; split; intros; try reflexivity; discriminate.
+Qed.
+
+Lemma lt_of_zero c : lt_of c 0 = Unset.
+Proof. reflexivity. Qed.
+
+Lemma from0_unset c ing : from0 ing = true -> lt_of c (ing_ifid ing) = Unset.
+Proof. unfold from0. intros H. apply N.eqb_eq in H. rewrite H. reflexivity. Qed.
+
+Lemma is_xover_with_infos p l : is_xover (with_infos p l) = is_xover p.
+Proof. reflexivity. Qed.
+
+Section C06.
+Variable mac : N -> N -> N -> N -> N -> list N.
+Notation macq := (total mac).
+Variable c : cfg.
+Variable now : N.
+Variable ing : ingress.
+
+Lemma xover_cond_eff p s i h :
+  ingress_facts mac c now ing p s i h -> xover_cond s = eff_xover p.
+Proof.
+  intros F. unfold xover_cond, eff_xover.
+  rewrite (if_peer _ _ _ _ _ _ _ _ F), (if_pkt _ _ _ _ _ _ _ _ F).
+  destruct (folds ing p i); reflexivity.
+Qed.
+
+Lemma s_xover_eff p s i h s' :
+  ingress_facts mac c now ing p s i h -> egress_facts mac c now ing s s' ->
+  s_xover s' = eff_xover p.
+Proof.
+  intros F G. rewrite <- (xover_cond_eff _ _ _ _ F).
+  pose proof (ef_x _ _ _ _ _ _ G) as X. destruct (xover_cond s).
+  - destruct X as (h' & i' & _ & _ & _ & _ & _ & X & _). exact X.
+  - destruct X as (_ & _ & _ & X). rewrite X. apply (if_xover _ _ _ _ _ _ _ _ F).
+Qed.
+
+Lemma forward_admissible p e out d :
+  process_scion macq c now ing p = Forward e out d ->
+  (p_dst_ia p = c_ia c /\ e = 0) \/
+  (p_dst_ia p <> c_ia c /\
+   admissible (from0 ing) (lt_of c (ing_ifid ing)) (get_if c e) (eff_xover p) = true).
+Proof.
+  intros H. apply process_forward_inv in H as (s & i & h & F & [(A & B & _) | (A & _ & s' & G & -> & _)]).
+  - left. auto.
+  - right. split; [exact A|].
+    apply validate_egress_spec; [apply from0_unset|].
+    rewrite <- (s_xover_eff _ _ _ _ _ F G). apply (ef_adm _ _ _ _ _ _ G).
+Qed.
+
+Lemma c06_ok_model p : c06_ok c ing p (process macq c now ing p) = true.
+Proof.
+  unfold c06_ok, process. destruct (process_scion macq c now ing p) eqn:E; try reflexivity.
+  apply forward_admissible in E as [[A B] | [A B]].
+  - apply N.eqb_eq in A. apply N.eqb_eq in B. rewrite A, B. reflexivity.
+  - apply N.eqb_neq in A. rewrite A. cbn. exact B.
+Qed.
+
+Lemma egress_rejected_scmp s :
+  validate_egress (from0 ing) (lt_of c (ing_ifid ing)) (get_if c (s_eg s)) (s_xover s) <> EgOk ->
+  exists code ptr,
+    validate_egress_id c ing s =
+      Stop (SlowPath (SpScmp ScmpParameterProblem code ptr) (s_eg s) (s_p s)) /\
+    In code [CodeInvalidPath; CodeUnknownHopFieldIngress; CodeUnknownHopFieldEgress;
+             CodeInvalidSegmentChange].
+Proof.
+  unfold validate_egress_id, slow. intros H.
+  destruct (validate_egress _ _ _ _); [congruence | | |].
+  - destruct (i_consdir (s_inf s)); eexists; eexists; (split; [reflexivity|]); cbn; auto.
+  - eexists; eexists; (split; [reflexivity|]); cbn; auto.
+  - eexists; eexists; (split; [reflexivity|]); cbn; auto.
+Qed.
+
+End C06.
